@@ -20,6 +20,10 @@ as ONE atom ``cmp(...)`` of unknown value - inside the vocabulary only when ever
 and R4 requires every store of an approval header to lie on a path that tested the ``req_succeeded`` parameter and found it true (seeded
 s8-c20-2).
 
+Auto-mutation wave: R4 requires the duplicate-CORS refusal of ``App.add_middleware`` (a test over ``isinstance(_, CORSMiddleware)`` whose true
+branch only raises) to imply a truthy ``self._cors_enable`` - by itself or through a dominating test; explicitly stacked policies are
+not refused when the flag is off (sa-am00072).  Nested / chained spellings of the same guard are read.
+
 Contract names used as anchors: the parameter positions of
 ``process_response(self, req, resp, resource, req_succeeded)``, the public
 attributes ``allow_origins`` / ``allow_credentials`` / ``expose_headers``, the
@@ -682,8 +686,12 @@ def _wiring(run):
         run.check(sees_registered and sees_new,
                   'the duplicate-CORS test counts the registered components together with the incoming ones', g, tn.ast,
                   runtime_witness='App(cors_enable=True); app.add_middleware(CORSMiddleware(allow_credentials="*")) is accepted: two policies stacked')
+    # ... or the flag is known to be off (a guard nested under / chained behind a test of the flag is skipped legitimately)
+    flag_off_edges = [(n.id, y, l) for n in gcfg.live_nodes() if n.kind == 'test' for (y, l) in gcfg.succ[n.id]
+                      if l in ('T', 'F') and implied(n.ast, l == 'T', is_flag_attr) is False]
     for w in writers:
-        ok = any(w.id not in flow.reachable(gcfg, [gcfg.entry], avoid_edges=[(tn.id, y, l) for (y, l) in gcfg.succ[tn.id] if l == 'F']) for tn in tests)
+        ok = any(w.id not in flow.reachable(gcfg, [gcfg.entry], avoid_edges=[(tn.id, y, l) for (y, l) in gcfg.succ[tn.id] if l == 'F'] + flag_off_edges)
+                 for tn in tests)
         run.check(ok, 'the registered-middleware list is extended only after the duplicate-CORS test passed', g, w.ast)
 
 
